@@ -1,6 +1,10 @@
 package main
 
 import (
+	"unsafe"
+	"syscall"
+	"sync/atomic"
+	"os"
 	"database/sql"
 	"encoding/json"
 	"fmt"
@@ -243,6 +247,9 @@ func runC06proc(c *runCtx) {
 		c.logCur(map[string]any{"family": "c06-proc", "round": round})
 		srv := NewServer(filepath.Join(c.scratch, fmt.Sprintf("r%d", round)))
 		srv.FreshDB()
+		// all-or-nothing across a kill rests on SQLite's on-disk rollback journal (or write-ahead log): watch the
+		// database directory for it from before the server opens the file
+		jw := watchJournal(srv.dir, filepath.Base(srv.db))
 		if err := srv.Start(); err != nil {
 			fmt.Println("CHECK-BROKEN cannot start the server:", err)
 			panic(err)
@@ -372,6 +379,16 @@ func runC06proc(c *runCtx) {
 				c.violate("sigterm:data-lost", fmt.Sprintf("round %d: %d promises before SIGTERM, %d after", round, len(before.P), len(after.P)), nil)
 			}
 		}
+		if jw != nil {
+			seen := jw.stop()
+			acked := len(l.promises) + len(l.completed) + len(l.regs) + len(l.schedules) + len(l.locks)
+			if acked > 0 {
+				c.rep.Hit("journal-watch.rounds-with-acknowledged-writes")
+				if !seen {
+					c.violate("durability:no-on-disk-journal", fmt.Sprintf("round %d: %d writes were acknowledged but neither %s-journal nor %s-wal was ever created next to the database: a transaction interrupted by a kill cannot be rolled back", round, acked, filepath.Base(srv.db), filepath.Base(srv.db)), nil)
+				}
+			}
+		}
 		c.rep.Hit("rounds")
 		c.rep.HitN("kills", kills)
 		if len(c.rep.Samples) < 2 {
@@ -433,4 +450,53 @@ func holdReadLock(path string, d time.Duration) <-chan bool {
 		done <- true
 	}()
 	return done
+}
+
+// journalWatch observes (inotify) whether SQLite's rollback journal or write-ahead log file is ever created in dir.
+type journalWatch struct {
+	fd   int
+	seen atomic.Bool
+	done chan struct{}
+}
+
+func watchJournal(dir, dbBase string) *journalWatch {
+	_ = os.MkdirAll(dir, 0o755)
+	fd, err := syscall.InotifyInit1(syscall.IN_CLOEXEC)
+	if err != nil {
+		return nil
+	}
+	if _, err := syscall.InotifyAddWatch(fd, dir, syscall.IN_CREATE|syscall.IN_MOVED_TO); err != nil {
+		syscall.Close(fd)
+		return nil
+	}
+	w := &journalWatch{fd: fd, done: make(chan struct{})}
+	go func() {
+		defer close(w.done)
+		buf := make([]byte, 64*1024)
+		for {
+			n, err := syscall.Read(fd, buf)
+			if err != nil || n <= 0 {
+				return
+			}
+			for off := 0; off+syscall.SizeofInotifyEvent <= n; {
+				ev := (*syscall.InotifyEvent)(unsafe.Pointer(&buf[off]))
+				nameLen := int(ev.Len)
+				name := strings.TrimRight(string(buf[off+syscall.SizeofInotifyEvent:off+syscall.SizeofInotifyEvent+nameLen]), "\x00")
+				if name == dbBase+"-journal" || name == dbBase+"-wal" {
+					w.seen.Store(true)
+				}
+				off += syscall.SizeofInotifyEvent + nameLen
+			}
+		}
+	}()
+	return w
+}
+
+func (w *journalWatch) stop() bool {
+	syscall.Close(w.fd)
+	select {
+	case <-w.done:
+	case <-time.After(time.Second):
+	}
+	return w.seen.Load()
 }
